@@ -564,7 +564,8 @@ func (e *Engine) TranslateFunc(key string) (res *funcResult) {
 		if strings.HasSuffix(c.Name, "H_$wrFail") || strings.Contains(c.Name, "H_$wrFail$") {
 			// assumed of every sink: a failing Write does not report (or wrap) io.EOF
 			eof := IntLit(knownErrorGlobals["io.EOF"])
-			return And(Not(Eq(sel, eof)), Not(mk("errIs", SBool, sel, eof)))
+			// ... and its errors are its own values, not this package's sentinels
+			return And(Not(Eq(sel, eof)), Not(mk("errIs", SBool, sel, eof)), Or(Eq(sel, IntLit(0)), And(IGt(sel, IntLit(1<<20)), Eq(mk("errInner", SInt, sel), IntLit(0)))))
 		}
 		name := strings.TrimPrefix(c.Name, "old$")
 		if i := strings.Index(name, "pre$"); i >= 0 {
@@ -580,7 +581,14 @@ func (e *Engine) TranslateFunc(key string) (res *funcResult) {
 		if sel.Sort() != th.SortOf(typ) {
 			return nil
 		}
-		return t.typeInv(sel, typ)
+		inv := t.typeInv(sel, typ)
+		if _, isSlice := typ.Underlying().(*types.Slice); isSlice && strings.HasPrefix(name, "H_") {
+			// a slice held in a field points into memory that is already allocated
+			if _, used := t.globals["allocTop"]; used {
+				inv = And(inv, Implies(ILt(th.SPtr(sel), IntLit(embArrBase)), ILe(IAdd(th.SPtr(sel), th.SCap(sel)), t.allocTop())))
+			}
+		}
+		return inv
 	}
 	libs := append([]string{}, fc.Uses...)
 	obls, err := GenVCs(t.proc, e.prelude(th, libs))
@@ -624,6 +632,7 @@ func (t *fnTrans) emitTopReturn(f *frame, rs []sval) {
 	t.cur.Cmds = append(t.cur.Cmds, Cmd{Kind: CAssert, E: False, Name: "canary/return", ExpectSat: true, Props: fc.Props})
 	for _, e := range fc.Ensures {
 		t.cur.Assert(f.specBool(e.E, env), "ensures/"+e.Label, propsOr(e.Props, fc.Props))
+		t.cur.Cmds[len(t.cur.Cmds)-1].Meta = map[string]string{"pos": t.posString()}
 	}
 	if len(fc.Updates) > 0 {
 		// exact memory effect: final memory == old memory with the listed stores
